@@ -10,9 +10,11 @@
    the inverse of a triangular matrix is the inverse of the leading block
    (proofs/TriangularCrop.v), so den_d ignores d_gen.
 
-   Order of assignments in get_bs_cached: `_method = method` happens BEFORE
-   the file is loaded and `_D` AFTER; np.load is not guarded.  A raising load
-   therefore leaves the new method name next to the old operator.
+   Order of assignments in get_bs_cached (since fix 0e05e8d): `_method` is
+   assigned together with `_D`, after the (still unguarded) np.load succeeded
+   or the operator was generated; a raising load leaves the cache untouched.
+   Since 7ce4ac5 a loaded array whose shape is not what its file name says is
+   skipped (`continue`).
    `order` in Call is the list of sizes in the names of this method's files in
    the order glob() yields them ("relies on file order").  No proofs here. *)
 From Coq Require Import List Arith Bool.
@@ -47,13 +49,19 @@ Inductive op :=
   | Seed (d : nat) (k : fkey) (c : fstate dcont)
   | Remove (d : nat) (k : fkey).
 
-Definition junk (meth sz : nat) : dcont := {| d_meth := meth; d_gen := 0; d_size := sz; d_junk := true |}.
-
-(* first size in glob order that is sufficient *)
-Fixpoint first_ge (cols : nat) (order : list nat) : option nat :=
+(* first file in glob order that is sufficient and not of a wrong shape
+   (`continue` on a shape mismatch); a damaged one makes np.load raise *)
+Fixpoint scan (meth cols di : nat) (order : list nat) (d : disk fkey dcont) : option (nat * fstate dcont) :=
   match order with
   | [] => None
-  | x :: r => if cols <=? x then Some x else first_ge cols r
+  | x :: r =>
+      if cols <=? x then
+        match find_file fkey_eqb di (meth, x) d with
+        | Some FShape => scan meth cols di r d
+        | Some c => Some (x, c)
+        | None => scan meth cols di r d
+        end
+      else scan meth cols di r d
   end.
 
 Definition mem_hit (s : st) (meth cols : nat) : option dcont :=
@@ -74,23 +82,14 @@ Definition step_call (s : st) (meth cols : nat) (bd : bdarg) (order : list nat) 
   | Some d => let d' := crop cols d in fin (mk (Some d') (method s) 1 (gdir s) (dk s)) d'
   | None =>
       let (g, dir) := resolve (gdir s) bd in
-      (* _method = method *)
       let loadfile :=
         match dir with
         | None => None
-        | Some di =>
-            match first_ge cols order with
-            | None => None
-            | Some sz => match find_file fkey_eqb di (meth, sz) (dk s) with
-                         | Some c => Some (sz, c)
-                         | None => None
-                         end
-            end
+        | Some di => scan meth cols di order (dk s)
         end in
       match loadfile with
-      | Some (_, FBad e) => (mk (D s) (Some meth) (source s) g (dk s), Raise (load_exc e))
-      | Some (sz, FShape) => let d' := crop cols (junk meth (Nat.div2 sz)) in
-                             fin (mk (Some d') (Some meth) 2 g (dk s)) d'
+      | Some (_, FBad e) => (mk (D s) (method s) (source s) g (dk s), Raise (load_exc e))
+      | Some (_, FShape) => (mk (D s) (method s) (source s) g (dk s), Raise EOther)   (* unreachable *)
       | Some (_, FGood d) => let d' := crop cols d in fin (mk (Some d') (Some meth) 2 g (dk s)) d'
       | None =>
           let d' := ideal meth cols in
@@ -98,7 +97,7 @@ Definition step_call (s : st) (meth cols : nat) (bd : bdarg) (order : list nat) 
           | Some di =>
               if dir_writable di
               then fin (mk (Some d') (Some meth) 3 g (put_file fkey_eqb di (meth, cols) (FGood d') (dk s))) d'
-              else (mk (Some d') (Some meth) 3 g (dk s), Raise EOther)   (* np.save raises *)
+              else (mk (Some d') (Some meth) 3 g (dk s), Raise EOther)   (* the save raises *)
           | None => fin (mk (Some d') (Some meth) 3 g (dk s)) d'
           end
       end
@@ -197,14 +196,15 @@ Definition dcont_eqb (a b : dcont) : bool :=
 Definition uses_bad_dir (s : st) (bd : bdarg) : bool :=
   match snd (resolve (gdir s) bd) with Some di => negb (dir_writable di) | None => false end.
 
+(* assumptions about the environment, not defects: writable directories, and
+   good files on disk are what a save of their name writes *)
 Definition hazard (s : st) (o : op) : bool :=
   match o with
   | Call _ _ bd _ => uses_bad_dir s bd
   | Seed d k c =>
       match c with
-      | FShape => true
       | FGood x => negb (dcont_eqb x (ideal (fst k) (snd k)))
-      | FBad _ => false
+      | _ => false
       end
   | _ => false
   end.
